@@ -378,14 +378,7 @@ Qed.
 
 (* ---- (C) isolation, for every op list: what happens on one key is a
         function of the ops that touch that key ------------------------------ *)
-Definition touches (k : key) (o : op) : bool :=
-  match op_key o with Some k' => key_eqb k k' | None => true end.
-
-Fixpoint outs_for (k : key) (tr : trace) : list out :=
-  match tr with
-  | [] => []
-  | (o, v) :: r => if touches k o then v :: outs_for k r else outs_for k r
-  end.
+(* [touches] and [outs_for] are defined in corr/Run_C17.v (the isolation predicate uses them) *)
 
 Lemma step_other s o k : touches k o = false -> fst (step s o) k = s k.
 Proof.
@@ -431,6 +424,89 @@ Theorem isolation k ops :
   outs_for k (trace_of ops) = outs_for k (trace_of (filter (touches k) ops)) /\
   final ops k = final (filter (touches k) ops) k.
 Proof. unfold trace_of, final. apply isolation_from. reflexivity. Qed.
+
+(* the isolation predicate of corr/Run_C17.v holds on the model, for every op
+   list and every key: the answers of the restricted run are the answers the
+   key gets in the full run *)
+Lemma outs_eqb_refl l : outs_eqb l l = true.
+Proof. induction l as [|v l IH]; cbn; [reflexivity|]. now rewrite out_eqb_refl, IH. Qed.
+
+Lemma outs_for_all k ops : forall s, forallb (touches k) ops = true ->
+  outs_for k (trace_from s ops) = map snd (trace_from s ops).
+Proof.
+  induction ops as [|o ops IH]; intros s H; [reflexivity|].
+  cbn [forallb] in H. apply andb_prop in H as [Ho Hr].
+  cbn [trace_from]. destruct (step s o) as [s' v]. cbn [outs_for map snd]. rewrite Ho.
+  f_equal. now apply IH.
+Qed.
+
+Lemma forallb_filter_self {A} (f : A -> bool) l : forallb f (filter f l) = true.
+Proof.
+  induction l as [|a l IH]; [reflexivity|]. cbn [filter]. destruct (f a) eqn:E; [|exact IH].
+  cbn [forallb]. now rewrite E, IH.
+Qed.
+
+Theorem iso_holds k ops :
+  iso_ok k (trace_of ops) (map snd (trace_of (filter (touches k) ops))) = true.
+Proof.
+  unfold iso_ok. destruct (isolation k ops) as [E _]. rewrite E.
+  unfold trace_of. rewrite outs_for_all by apply forallb_filter_self. apply outs_eqb_refl.
+Qed.
+
+Theorem P_iso_holds ops ks :
+  P_C17_iso (trace_of ops)
+    (map (fun k => (k, map snd (trace_of (filter (touches k) ops)))) ks) = true.
+Proof.
+  unfold P_C17_iso. apply forallb_forall. intros e He. apply in_map_iff in He as [k [<- _]].
+  cbn [fst snd]. apply iso_holds.
+Qed.
+
+(* the same for sequential histories, restricted at the level of attempts (this
+   is what the harness executes: an attempt on another key disappears as a
+   whole, check and recording) *)
+Definition stouches (k : key) (x : sop) : bool :=
+  match x with Attempt _ a act _ => key_eqb k (throttle_ip a, act) | Cleanup _ => true end.
+
+Lemma iso_sequential_from k xs : forall s1 s2, s1 k = s2 k ->
+  outs_for k (arun_from s1 xs) = map snd (arun_from s2 (filter (stouches k) xs)).
+Proof.
+  induction xs as [|x xs IH]; intros s1 s2 E; [reflexivity|].
+  destruct x as [t a act fails|t].
+  - cbn [filter stouches]. destruct (key_eqb k (throttle_ip a, act)) eqn:Hk.
+    + assert (Tc : touches k (OCheck t a act) = true) by (unfold touches; cbn [op_key]; exact Hk).
+      assert (Tf : touches k (OFail t a act) = true) by (unfold touches; cbn [op_key]; exact Hk).
+      cbn [arun_from].
+      destruct (step_same s1 s2 _ k Tc E) as [E1 V1].
+      destruct (step s1 (OCheck t a act)) as [s1' v1], (step s2 (OCheck t a act)) as [s2' v2].
+      cbn [fst snd] in E1, V1. subst v2.
+      destruct v1; try (cbn [outs_for map snd]; rewrite Tc; f_equal; now apply IH).
+      destruct fails; [|cbn [outs_for map snd]; rewrite Tc; f_equal; now apply IH].
+      destruct (step_same s1' s2' _ k Tf E1) as [E2 V2].
+      destruct (step s1' (OFail t a act)) as [s1'' w1], (step s2' (OFail t a act)) as [s2'' w2].
+      cbn [fst snd] in E2, V2. subst w2.
+      cbn [outs_for map snd]. rewrite Tc, Tf. do 2 f_equal. now apply IH.
+    + assert (Tc : touches k (OCheck t a act) = false) by (unfold touches; cbn [op_key]; exact Hk).
+      assert (Tf : touches k (OFail t a act) = false) by (unfold touches; cbn [op_key]; exact Hk).
+      cbn [arun_from].
+      pose proof (step_other s1 _ k Tc) as E1.
+      destruct (step s1 (OCheck t a act)) as [s1' v1]. cbn [fst] in E1.
+      destruct v1; try (cbn [outs_for]; rewrite Tc; apply IH; congruence).
+      destruct fails; [|cbn [outs_for]; rewrite Tc; apply IH; congruence].
+      pose proof (step_other s1' _ k Tf) as E2.
+      destruct (step s1' (OFail t a act)) as [s1'' w1]. cbn [fst] in E2.
+      cbn [outs_for]. rewrite Tc, Tf. apply IH. congruence.
+  - cbn [filter stouches arun_from].
+    assert (Tc : touches k (OCleanup t) = true) by reflexivity.
+    destruct (step_same s1 s2 _ k Tc E) as [E1 V1].
+    destruct (step s1 (OCleanup t)) as [s1' v1], (step s2 (OCleanup t)) as [s2' v2].
+    cbn [fst snd] in E1, V1. subst v2. cbn [outs_for map snd]. rewrite Tc. f_equal. now apply IH.
+Qed.
+
+Theorem iso_sequential k xs :
+  iso_ok k (arun xs) (map snd (arun (filter (stouches k) xs))) = true.
+Proof.
+  unfold iso_ok, arun. rewrite (iso_sequential_from k xs init init eq_refl). apply outs_eqb_refl.
+Qed.
 
 (* ---- (D) every interleaving: refused only with ten stored failures, every
         stored entry is a recorded failure ------------------------------------- *)
